@@ -48,10 +48,19 @@ def gen_history(rnd, length):
     evs = []
     for _ in range(length):
         r = rnd.random()
-        if r < 0.62:
+        if r < 0.52:
             f = rnd.choice(FILES)
             evs.append({"ev": "analyze", "f": f, "m": random_module(rnd, f), "cleanup": True})
-        elif r < 0.70:
+        elif r < 0.57:
+            # the workspace scan's visit (fresh path, no definitions cleanup) of a file whose text did not change
+            evs.append({"ev": "rescan", "f": rnd.choice(FILES)})
+        elif r < 0.62:
+            evs.append({"ev": "refs", "pick": rnd.random()})
+        elif r < 0.65:
+            evs.append({"ev": "unused"})
+        elif r < 0.68:
+            evs.append({"ev": "evict", "f": rnd.choice(FILES)})
+        elif r < 0.72:
             evs.append({"ev": "close", "f": rnd.choice(FILES)})
         elif r < 0.82:
             evs.append({"ev": "avail", "f": rnd.choice(["t", "t2", "c"])})
@@ -69,14 +78,42 @@ def build_and_project(histories):
         ops, plan = [], []
         cur = {}          # slot -> Rendered of the last VALID version
         curbuf_valid = {}
+        last = {}         # slot -> (module, Rendered) last handed to analysis
+        curmod = {}       # slot -> module of the last VALID version
         for ev in evs:
-            if ev["ev"] == "analyze":
+            if ev["ev"] == "rescan":
+                if ev["f"] not in last:
+                    plan.append((None, None, None))
+                    continue
+                m, r = last[ev["f"]]
+                ops.append({"op": "analyze", "path": UNI.paths[ev["f"]], "text": r.text, "fresh": True})
+                ops.append({"op": "snapshot", "raw": True})
+                plan.append(({"ev": "analyze", "f": ev["f"], "m": m, "cleanup": False}, len(ops) - 1, dict(cur)))
+            elif ev["ev"] == "refs":
+                defs = [(slot, idx, r.text.split("\n")[ln - 1]) for slot, r in sorted(cur.items())
+                        for idx, ln in sorted(r.item_line.items()) if curmod[slot]["items"][idx - 1]["k"] == "def"]
+                if not defs:
+                    plan.append((None, None, None))
+                    continue
+                slot, idx, _ = defs[int(ev["pick"] * len(defs)) % len(defs)]
+                nm = curmod[slot]["items"][idx - 1]["name"]
+                ops.append({"op": "refs", "path": UNI.paths[slot], "line1": cur[slot].item_line[idx], "name": nm})
+                plan.append(({"ev": "refs", "f": slot, "idx": idx, "n": nm}, len(ops) - 1, dict(cur)))
+            elif ev["ev"] == "unused":
+                ops.append({"op": "unused"})
+                plan.append((ev, len(ops) - 1, dict(cur)))
+            elif ev["ev"] == "evict":
+                ops.append({"op": "evict", "paths": [UNI.paths[ev["f"]]]})
+                plan.append((ev, None, dict(cur)))
+            elif ev["ev"] == "analyze":
                 r = R.render_checked(UNI, ev["f"], ev["m"])
                 ops.append({"op": "analyze", "path": UNI.paths[ev["f"]], "text": r.text})
                 ops.append({"op": "snapshot", "raw": True})
                 if ev["m"]["valid"]:
                     cur[ev["f"]] = r
+                    curmod[ev["f"]] = ev["m"]
                 curbuf_valid[ev["f"]] = ev["m"]["valid"]
+                last[ev["f"]] = (ev["m"], r)
                 plan.append((ev, len(ops) - 1, dict(cur)))
             elif ev["ev"] == "close":
                 ops.append({"op": "close", "path": UNI.paths[ev["f"]]})
@@ -112,8 +149,18 @@ def build_and_project(histories):
             if ev["ev"] == "analyze":
                 snap = res["res"][ri]
                 lines.append(dict(ev, post=project(snap, cur)))
-            elif ev["ev"] == "close":
+            elif ev["ev"] in ("close", "evict"):
                 lines.append(ev)
+            elif ev["ev"] == "refs":
+                ans = res["res"][ri]
+                if not isinstance(ans, list):
+                    lines.append(dict(ev, ans=[{"file": "?", "idx": 0, "uk": json.dumps(ans)[:80], "ui": 0}]))
+                else:
+                    lines.append(dict(ev, ans=[dict(file=UNI.slot_of_path.get(u["file"]), **{k: v for k, v in decode_use(cur, u).items() if k != "name"})
+                                               for u in ans]))
+            elif ev["ev"] == "unused":
+                ans = res["res"][ri]
+                lines.append(dict(ev, ans=[{"file": UNI.slot_of_path.get(x["file"]), "name": x["name"]} for x in ans]))
             elif ev["ev"] == "avail":
                 ans = res["res"][ri]
                 m = {n: {"file": "NOFILE", "idx": 0} for n in NAMES}
